@@ -37,7 +37,32 @@ pub fn all_cases() -> Vec<Case> {
     regimes::length_regimes(&mut v);
     random::stdlib_programs(&mut v);
     random::random_programs(&mut v);
+    range_memory_coincidence(&mut v);
     v
+}
+
+/// /verif: a u32 range-checked operation executed at a clock cycle that equals the trace row of a memory-chiplet
+/// access (both add 16-bit lookups for the same cycle).  The memory rows follow the hasher rows of the program
+/// hash, so the padding sweep places the u32 operation on every cycle 3..70 for 1..5 memory accesses.
+/// Added after the second C03 sub-agent's seed (range checker overwriting a cycle's lookups).
+fn range_memory_coincidence(v: &mut Vec<Case>) {
+    for m in 1..=5usize {
+        for k in 0..=66usize {
+            if (k + m) % 2 == 1 && k > 20 {
+                continue; // thin out the far end of the sweep
+            }
+            let mem: String = (0..m).map(|i| format!("mem_load.{} drop ", i * 7)).collect();
+            for (op, top) in [("u32split", 0xFFFF_0001_0002_0003u64 % P), ("u32overflowing_add", 65535), ("u32overflowing_mul", 65536)] {
+                let src = format!("begin {mem}{}{op} end", rep("swap", k));
+                let mut c = Case::new("range-memory-coincidence", format!("{op} after {m} loads and {k} swaps"), src);
+                c.stack = stack_with_top(&[top % (1 << 32), 3]);
+                if op == "u32split" {
+                    c.stack = stack_with_top(&[top, 3]);
+                }
+                v.push(c);
+            }
+        }
+    }
 }
 
 // SHARED HELPERS
